@@ -16,6 +16,7 @@ type cenv struct {
 	vals    map[string]Val
 	resolve func(name string, st *State) (Val, bool)
 	old     *State
+	loopOld *State // the state on entry to the innermost enclosing range loop (atloop(e))
 	pkgPath string
 	visited func(k Term) Term // inside a loop over a map: has key k been iterated over already?
 }
@@ -23,7 +24,7 @@ type cenv struct {
 func (fc *FuncContract) PkgPath() string { return fc.Pkg }
 
 func (c *cenv) with(name string, v Val) *cenv {
-	n := &cenv{vals: map[string]Val{}, resolve: c.resolve, old: c.old, pkgPath: c.pkgPath, visited: c.visited}
+	n := &cenv{vals: map[string]Val{}, resolve: c.resolve, old: c.old, loopOld: c.loopOld, pkgPath: c.pkgPath, visited: c.visited}
 	for k, x := range c.vals {
 		n.vals[k] = x
 	}
@@ -374,6 +375,12 @@ func (e *Exec) ccall(st *State, x *ast.CallExpr, env *cenv) Val {
 				e.fail(x.Pos(), "contract: old() not available here")
 			}
 			return e.cev(env.old, x.Args[0], env)
+		case "atloop":
+			// the value of an expression on entry to the loop the invariant belongs to
+			if env.loopOld == nil {
+				e.fail(x.Pos(), "contract: atloop() is only available in the invariant of a range loop")
+			}
+			return e.cev(env.loopOld, x.Args[0], env)
 		case "len":
 			return e.lenOf(st, arg(0), x.Pos())
 		case "hasPrefix":
@@ -426,6 +433,14 @@ func (e *Exec) ccall(st *State, x *ast.CallExpr, env *cenv) Val {
 				cl = Val{T: e.closed0()}
 			}
 			return Val{T: Select(cl.T, ch.T), GT: boolT}
+		case "received":
+			// received(ch): this path has completed a receive on ch (so a send on ch or close(ch) happened before)
+			ch := arg(0)
+			rc, ok := st.ghosts["received"]
+			if !ok {
+				rc = Val{T: e.received0()}
+			}
+			return Val{T: Select(rc.T, ch.T), GT: boolT}
 		case "first", "second":
 			// components of a multi-value call result
 			v := arg(0)
